@@ -80,7 +80,9 @@ def r1_r2_header(repo, report):
                 pass
         if s is loops[0]:
             break
-    accs = [k for k, v in env0.items() if isinstance(v, Const) and v.value == 0.0 or (isinstance(v, Lin) and v.is_const() and v.const == 0 and k.startswith("expected"))]
+    zero = [k for k, v in env0.items() if (isinstance(v, Const) and v.value == 0.0) or (isinstance(v, Lin) and v.is_const() and v.const == 0)]
+    augmented = {n.target.id for lp_ in loops for n in ast.walk(lp_) if isinstance(n, ast.AugAssign) and isinstance(n.target, ast.Name) and any(isinstance(x, ast.Subscript) for x in ast.walk(n.value))}
+    accs = [k for k in zero if k in augmented]
     endp = Lin.atom("P") + Lin.atom("LEN")
     ends = [k for k, v in env0.items() if isinstance(v, Lin) and v == endp]
     maxs = [k for k, v in env0.items() if isinstance(v, Lin) and v == Lin.k(126) - Lin.atom("BASE")]
